@@ -351,8 +351,8 @@ func (w *World) coroutineTargets(info *types.Info, call *ast.CallExpr) []*types.
 		return nil
 	}
 	mf, ok := s.Obj().(*types.Func)
-	if !ok || mf.Pkg() == nil || mf.Pkg().Path() != modPath+"/common/coroutine" {
-		return nil
+	if !ok || mf.Pkg() == nil || mf.Pkg().Path() != modPath+"/common/coroutine" || mf.Name() != "Cycle" {
+		return nil // only Cycle runs the coroutine; Checkpoint/Reset/Append only install continuations
 	}
 	b := w.coroutineBindings()
 	if len(s.Index()) > 1 {
